@@ -801,6 +801,9 @@ func gen(c *core.Ctx) error {
 	genResumed(c, bt, emitResumed)
 	t2 := time.Now()
 	genHonestPairs(c, bt)
+	if err := genTokenRelay(c, bt); err != nil {
+		return err
+	}
 	c.Note(fmt.Sprintf("timing: scripted %.1fs resumed %.1fs honest %.1fs", t1.Sub(t0).Seconds(), t2.Sub(t1).Seconds(), time.Since(t2).Seconds()))
 	c.Rule("on every successful handshake against a scripted peer: Authentication=REQUIRED => an own-listed method ran to success as seen by the peer; Encryption/Integrity=REQUIRED => Stream.IsEncrypted and the next bytes written are not cleartext on the wire; reported Encryption == IsEncrypted == not-cleartext; reported Authentication == an exchange succeeded, reported NegotiatedAuth == that method; and (error, reported fields, IsEncrypted, exchanges seen) == Model/Handshake.v")
 	c.Exhaustive(false)
@@ -827,6 +830,18 @@ func replay(raw json.RawMessage) error {
 	}
 	if json.Unmarshal(raw, &hk) == nil && hk.Kind == "honest" {
 		return nil // honest pairs carry no oracle of their own here (C10 judges them); model comparison only
+	}
+	var ts tokSpec
+	if json.Unmarshal(raw, &ts) == nil && (ts.Kind == "tokcli" || ts.Kind == "toksrv") {
+		w, err := peer.NewTokenWorld("verif.local")
+		if err != nil {
+			return err
+		}
+		defer w.Cleanup()
+		if key, txt := judgeTok(ts, runTok(w, ts)); key != "" {
+			return fmt.Errorf("%s: %s", key, txt)
+		}
+		return nil
 	}
 	var rs resSpec
 	if json.Unmarshal(raw, &rs) == nil && (rs.Kind == "rescli" || rs.Kind == "ressrv") {
